@@ -181,8 +181,16 @@ struct Overlay<'a> {
     loaded: usize,
 }
 
+/// the include handler stops handing out files once this many bytes went out (a generated header included hundreds of
+/// times: 4.9 MB took 4.5 s, inside the n^2 budget but at the edge of the fixed watchdog — a false alarm on a loaded
+/// machine, seen with `ppmut:13401016671280`); the compiler then reports the include as not found
+const MAX_LOADED: usize = 1 << 20;
+
 impl rssl::text::IncludeHandler for Overlay<'_> {
     fn load(&mut self, file_name: &str, parent_name: &str) -> Result<rssl::text::FileData, rssl::text::IncludeError> {
+        if self.loaded > MAX_LOADED {
+            return Err(rssl::text::IncludeError::FileNotFound);
+        }
         if file_name == self.m.entry {
             return match String::from_utf8(self.m.bytes.clone()) {
                 Ok(contents) => {
